@@ -48,6 +48,7 @@ ADAPTERS = {
     "stream": {"ext": ".records", "multi": True},
     "stream-gz": {"ext": ".records.gz", "multi": True},
     "jsonfile": {"ext": ".json", "multi": True},
+    "jsonfile-plain": {"ext": ".jsonl", "multi": False, "plain": True},  # plain JSON lines: the reader's fallback branch
     "avro": {"ext": ".avro", "multi": False},
     "csvfile": {"ext": ".csv", "multi": False},
     "sqlite": {"ext": ".sqlite", "scheme": "sqlite://", "multi": True},
@@ -202,9 +203,19 @@ def source_url(ctx, adapter, tag):
     return cfg.get("scheme", "") + path, path
 
 
-def write_source(url, records):
+def write_source(url, records, adapter=None):
     from flow.record import RecordWriter
 
+    if adapter and ADAPTERS[adapter].get("plain"):
+        # not a flow.record file: one JSON object of scalars per line (only the flat shape is offered to this adapter)
+        with open(url, "w") as f:
+            for r in records:
+                if getattr(r._desc, "name", None) != "c10/flat":
+                    raise ValueError("plain JSON lines are written from flat records only")
+                d = {k: getattr(r, k) for k in ("s", "t", "n", "m", "f", "b")}
+                f.write(json.dumps({k: (v if v is None or isinstance(v, (bool, float)) else (int(v) if isinstance(v, int) else str(v)))
+                                    for k, v in d.items()}) + "\n")
+        return
     w = RecordWriter(url)
     try:
         for r in records:
@@ -256,7 +267,7 @@ def probe_storable(ctx):
         for shape, recs in sorted(by.items()):
             url, path = source_url(ctx, adapter, "probe-" + shape)
             try:
-                write_source(url, recs[:2])
+                write_source(url, recs[:2], adapter)
                 a, ea = read_all(url)
                 b, eb = read_all(url)
                 if type(ea) is type(eb) and len(a) == len(b) and stable_obs(a, b) is not None:
@@ -441,7 +452,7 @@ def run_filter(ctx, case):
     url, path = source_url(ctx, adapter, "c%d" % ctx.evaluations)
     try:
         try:
-            write_source(url, seq)
+            write_source(url, seq, adapter)
         except Exception as e:  # noqa: BLE001 - writing is not this property's subject
             ctx.event("skipped_unwritable:%s:%s" % (adapter, type(e).__name__))
             return
